@@ -177,4 +177,355 @@ theorem flat_items (o : Opt) (col : Nat) : ∀ (is : Items), flatOneLineItems is
       omega
 end
 
+/-! ## rendered text is a fixed point of the render functions -/
+
+/-- the further lines of a text as items: a line break and the line, verbatim -/
+def tailItems : List Nat → Items
+  | [] => .nil
+  | l :: ls => .cons .lineBreak (.cons (.str l []) (tailItems ls))
+
+/-- rendered lines (first line first), re-read as items: every line is one piece of text -/
+def reify : List Nat → Items
+  | [] => .nil
+  | l :: ls => .cons (.str l []) (tailItems ls)
+
+theorem action_none (tl f ind acc : Bool) : Brk.action .none tl f ind acc = .nothing := by
+  cases tl <;> cases f <;> cases ind <;> cases acc <;> rfl
+
+/-- a text item behind no pending break is appended as it is -/
+theorem step_text (o : Opt) (tl f ind : Bool) (st : St) (hp : st.pending = .none) (l : Nat)
+    (rest : Items) :
+    loopItems o tl f ind (.cons (.str l []) rest) st
+      = loopItems o tl f ind rest
+          { column := st.column, groupColumn := st.groupColumn, pending := .none,
+            lineWidth := st.lineWidth + l, childIndented := st.childIndented, firstItem := false,
+            out := st.out.append [l] } := by
+  have hnl : ∀ acc, Brk.needsLinebreak .none tl f acc = false := by intro acc; rfl
+  simp only [loopItems, isIndentedBlock, Bool.false_eq_true, if_false, preAdjust, hp, hnl,
+    Bool.false_and, renderItem, List.reverse_cons, List.reverse_nil, List.nil_append]
+  have hr : ∀ fw, resolvePending o ind st fw = .none := by intro fw; simp [resolvePending, hp]
+  simp [stepItem, hp, hr, action_none, Out.firstW, Out.multi, Out.lastW]
+
+theorem emit_newline (out : Out) (l : Nat) : (Out.newline out).append [l] = l :: out := by
+  simp [Out.newline, Out.append, Out.emit]
+
+theorem step_lineBreak (o : Opt) (tl f ind : Bool) (st : St) (rest : Items) :
+    loopItems o tl f ind (.cons .lineBreak rest) st
+      = loopItems o tl f ind rest { st with out := st.out.newline, pending := .none } := by
+  simp [loopItems]
+
+theorem loop_tail (o : Opt) (tl f ind : Bool) : ∀ (ls : List Nat) (st : St), st.pending = .none →
+    ∃ st', loopItems o tl f ind (tailItems ls) st = some st' ∧ st'.out = ls.reverse ++ st.out
+  | [], st, _ => ⟨st, by simp [tailItems, loopItems], by simp⟩
+  | l :: ls, st, _ => by
+      have e1 : tailItems (l :: ls) = .cons .lineBreak (.cons (.str l []) (tailItems ls)) := rfl
+      rw [e1, step_lineBreak, step_text o tl f ind _ rfl l (tailItems ls)]
+      obtain ⟨st', h1, h2⟩ := loop_tail o tl f ind ls
+        { column := st.column, groupColumn := st.groupColumn, pending := .none,
+          lineWidth := st.lineWidth + l, childIndented := st.childIndented, firstItem := false,
+          out := (Out.newline st.out).append [l] } rfl
+      refine ⟨st', h1, ?_⟩
+      rw [h2, emit_newline]
+      simp
+
+/-- `render (reify lines) = lines`, whatever the options, column and `indented` flag. -/
+theorem render_reify (o : Opt) (ind : Bool) (col : Nat) (l : Nat) (ls : List Nat) :
+    renderGroupLines o (reify (l :: ls)) ind col = some (l :: ls) := by
+  have e1 : reify (l :: ls) = .cons (.str l []) (tailItems ls) := rfl
+  rw [e1]
+  simp only [renderGroupLines, renderItem]
+  by_cases hc : (tooLong o.lineLen col (.cons (.str l []) (tailItems ls))
+      || anyItem forceBreak (.cons (.str l []) (tailItems ls))
+      || lastIs isIndentedBlock (.cons (.str l []) (tailItems ls))) = true
+  · -- break branch
+    rw [if_pos hc, step_text o _ _ ind _ rfl l (tailItems ls)]
+    obtain ⟨st', h1, h2⟩ := loop_tail o (tooLong o.lineLen col (.cons (.str l []) (tailItems ls)))
+      (anyItem forceBreak (.cons (.str l []) (tailItems ls))) ind ls
+      { column := col, groupColumn := col, pending := .none, lineWidth := col + l,
+        childIndented := false, firstItem := false, out := Out.append [0] [l] } rfl
+    rw [h1]
+    simp [h2, append_single]
+  · -- single-line branch: only possible without further lines
+    rw [if_neg hc]
+    cases ls with
+    | nil => simp [tailItems, flatItems, renderItem, append_single]
+    | cons l2 ls2 =>
+      exfalso
+      apply hc
+      simp [tailItems, anyItem, forceBreak]
+
+/-! ## a group that is broken because it is too long renders as if its breaks were forced -/
+
+/-- breaks whose behaviour in a broken group does not depend on WHY the group is broken -/
+def okBrk (b : Brk) : Bool := b != .spaceOrIndent && b != .spaceOrReturn
+
+/-- direct items: no `SpaceOrIndent` / `SpaceOrReturn` break and no `OptionalChar` -/
+def okItems : Items → Bool
+  | .nil => true
+  | .cons (.brk b) rest => okBrk b && okItems rest
+  | .cons (.optChar _) _ => false
+  | .cons _ rest => okItems rest
+
+theorem nl_eq (b : Brk) (h : okBrk b = true) (tl acc : Bool) :
+    b.needsLinebreak true false true = b.needsLinebreak tl true acc := by
+  cases b <;> cases tl <;> cases acc <;> first | rfl | (simp [okBrk] at h)
+
+theorem ni_eq (b : Brk) (h : okBrk b = true) (tl ind : Bool) :
+    b.needsIndent true false ind = b.needsIndent tl true ind := by
+  cases b <;> cases tl <;> cases ind <;> first | rfl | (simp [okBrk] at h)
+
+theorem act_eq (b : Brk) (h : okBrk b = true) (hs : b ≠ .spaceOrIndentIfNecessary) (tl ind acc : Bool) :
+    b.action true false ind true = b.action tl true ind acc := by
+  cases b <;> cases tl <;> cases ind <;> cases acc <;>
+    first | rfl | (exact absurd rfl hs) | (simp [okBrk] at h)
+
+theorem preAdjust_eq (o : Opt) (tl : Bool) (st : St) (h : okBrk st.pending = true) :
+    preAdjust o true false false st = preAdjust o tl true false st := by
+  simp only [preAdjust, Bool.and_false, Bool.not_false]
+  rw [nl_eq st.pending h tl true, ni_eq st.pending h tl false]
+
+theorem resolve_ok (o : Opt) (st : St) (fw : Nat) (h : okBrk st.pending = true) :
+    okBrk (resolvePending o false st fw) = true ∧ resolvePending o false st fw ≠ .spaceOrIndentIfNecessary := by
+  unfold resolvePending
+  cases hp : st.pending <;> simp only [hp] at h ⊢ <;>
+    first
+    | (split <;> simp [okBrk, ifNecessaryBreak] <;> done)
+    | (simp [okBrk]; done)
+    | (simp [okBrk] at h; done)
+
+theorem stepItem_eq (o : Opt) (tl : Bool) (st : St) (gc : Nat) (ci : Bool) (t : Out)
+    (h : okBrk st.pending = true) :
+    stepItem o true false false st gc ci t = stepItem o tl true false st gc ci t := by
+  obtain ⟨h1, h2⟩ := resolve_ok o st t.firstW h
+  have hk := act_eq (resolvePending o false st t.firstW) h1 h2 tl false (!(st.firstItem && false))
+  simp only [Bool.and_false, Bool.not_false] at hk
+  simp only [stepItem, Bool.and_false, Bool.not_false, hk]
+
+theorem render_ro (o : Opt) (i : Item) (a r1 r2 : Bool) (c : Nat) (h : ∀ w, i ≠ .optChar w) :
+    renderItem o i a r1 c = renderItem o i a r2 c := by
+  cases i with
+  | optChar w => exact absurd rfl (h w)
+  | _ => simp [renderItem]
+
+theorem okBrk_stepBrk (o : Opt) (b : Brk) (st : St) (h : okBrk b = true) :
+    okBrk (stepBrk o false b st).pending = true := by
+  cases b <;> simp_all [stepBrk, okBrk]
+
+/-- `loopItems` with (too_long, no forced break) = `loopItems` with (any too_long, forced break), in a
+group that is not itself indented, for item lists without `SpaceOrIndent`/`SpaceOrReturn`/`OptionalChar`. -/
+theorem tooLong_as_force (o : Opt) (tl : Bool) : ∀ (is : Items) (st : St), okItems is = true →
+    okBrk st.pending = true →
+    loopItems o true false false is st = loopItems o tl true false is st
+  | .nil, st, _, _ => by simp [loopItems]
+  | .cons (.brk b) rest, st, h, _ => by
+      simp only [okItems, Bool.and_eq_true] at h
+      simp only [loopItems]
+      exact tooLong_as_force o tl rest _ h.2 (okBrk_stepBrk o b st h.1)
+  | .cons .lineBreak rest, st, h, _ => by
+      simp only [okItems] at h
+      simp only [loopItems]
+      exact tooLong_as_force o tl rest _ h (by simp [okBrk])
+  | .cons (.optChar w) rest, st, h, _ => by simp [okItems] at h
+  | .cons (.char w) rest, st, h, hp => by
+      simp only [okItems] at h
+      simp only [loopItems, isIndentedBlock, Bool.false_eq_true, if_false]
+      rw [preAdjust_eq o tl st hp, render_ro o (.char w) _ (true || _) (tl || _) _ (by intro w'; simp)]
+      cases renderItem o (.char w) (preAdjust o tl true false st).2 (tl || (preAdjust o tl true false st).2)
+          (preAdjust o tl true false st).1 with
+      | none => rfl
+      | some t =>
+        simp only []
+        rw [stepItem_eq o tl st _ _ t hp]
+        exact tooLong_as_force o tl rest _ h (by simp [stepItem, okBrk])
+  | .cons (.str w m) rest, st, h, hp => by
+      simp only [okItems] at h
+      simp only [loopItems, isIndentedBlock, Bool.false_eq_true, if_false]
+      rw [preAdjust_eq o tl st hp, render_ro o (.str w m) _ (true || _) (tl || _) _ (by intro w'; simp)]
+      cases renderItem o (.str w m) (preAdjust o tl true false st).2 (tl || (preAdjust o tl true false st).2)
+          (preAdjust o tl true false st).1 with
+      | none => rfl
+      | some t =>
+        simp only []
+        rw [stepItem_eq o tl st _ _ t hp]
+        exact tooLong_as_force o tl rest _ h (by simp [stepItem, okBrk])
+  | .cons .error rest, st, h, hp => by
+      simp only [okItems] at h
+      simp only [loopItems, isIndentedBlock, Bool.false_eq_true, if_false]
+      rw [preAdjust_eq o tl st hp]
+      simp [renderItem]
+  | .cons (.group js) rest, st, h, hp => by
+      simp only [okItems] at h
+      simp only [loopItems]
+      by_cases hb : isIndentedBlock (.group js) = true
+      · simp only [hb, if_true]
+        cases renderItem o (.group js) false false st.column with
+        | none => rfl
+        | some t =>
+          simp only []
+          exact tooLong_as_force o tl rest _ h (by simp [okBrk])
+      · simp only [hb, if_false]
+        rw [preAdjust_eq o tl st hp,
+          render_ro o (.group js) _ (true || _) (tl || _) _ (by intro w'; simp)]
+        cases renderItem o (.group js) (preAdjust o tl true false st).2
+            (tl || (preAdjust o tl true false st).2) (preAdjust o tl true false st).1 with
+        | none => rfl
+        | some t =>
+          simp only []
+          rw [stepItem_eq o tl st _ _ t hp]
+          exact tooLong_as_force o tl rest _ h (by simp [stepItem, okBrk])
+
+/-! ## the builder's second-pass upgrade `MaybeIndent → IndentedBreak` does not change the rendering -/
+
+/-- What the builder does on the second pass where the first pass broke the line: `maybe_force_indent`
+/ `indented_break` push `IndentedBreak` where the first pass had `MaybeIndent`. -/
+def upgrade : Items → Items
+  | .nil => .nil
+  | .cons (.brk .maybeIndent) rest => .cons (.brk .indentedBreak) (upgrade rest)
+  | .cons i rest => .cons i (upgrade rest)
+
+/-- states that differ at most by a pending `MaybeIndent` vs `IndentedBreak` -/
+def Rel (st st' : St) : Prop :=
+  st' = st ∨ (st.pending = .maybeIndent ∧ st' = { st with pending := .indentedBreak })
+
+theorem rel_fields (st st' : St) (h : Rel st st') :
+    st'.column = st.column ∧ st'.groupColumn = st.groupColumn ∧ st'.lineWidth = st.lineWidth
+      ∧ st'.childIndented = st.childIndented ∧ st'.firstItem = st.firstItem ∧ st'.out = st.out := by
+  rcases h with h | ⟨_, h⟩ <;> subst h <;> simp
+
+theorem rel_preAdjust (o : Opt) (tl : Bool) (st st' : St) (h : Rel st st') :
+    preAdjust o tl true false st' = preAdjust o tl true false st := by
+  rcases h with h | ⟨hp, h⟩
+  · subst h; rfl
+  · subst h
+    cases tl <;> simp [preAdjust, hp, Brk.needsLinebreak, Brk.needsIndent]
+
+theorem rel_stepItem (o : Opt) (tl : Bool) (st st' : St) (gc : Nat) (ci : Bool) (t : Out)
+    (h : Rel st st') : stepItem o tl true false st' gc ci t = stepItem o tl true false st gc ci t := by
+  rcases h with h | ⟨hp, h⟩
+  · subst h; rfl
+  · subst h
+    cases tl <;> cases hf : st.firstItem <;>
+      simp [stepItem, resolvePending, hp, hf, Brk.action, Brk.needsLinebreak, Brk.needsIndent]
+
+theorem rel_stepBrk (o : Opt) (b : Brk) (st st' : St) (h : Rel st st') (hb : b ≠ .maybeIndent) :
+    stepBrk o false b st' = stepBrk o false b st := by
+  have hf := rel_fields st st' h
+  obtain ⟨h1, h2, h3, h4, h5, h6⟩ := hf
+  cases b <;> first | (exact absurd rfl hb) | (cases st; cases st'; simp_all [stepBrk])
+
+theorem rel_block (st st' : St) (h : Rel st st') (t : Out) :
+    ({ st' with out := st'.out.append t, pending := Brk.none } : St)
+      = { st with out := st.out.append t, pending := Brk.none } := by
+  rcases h with h | ⟨_, h⟩ <;> subst h <;> rfl
+
+theorem rel_maybeIndent (o : Opt) (st st' : St) (h : Rel st st') :
+    Rel (stepBrk o false .maybeIndent st) (stepBrk o false .indentedBreak st') := by
+  obtain ⟨h1, h2, h3, h4, h5, h6⟩ := rel_fields st st' h
+  right
+  refine ⟨by simp [stepBrk], ?_⟩
+  cases st; cases st'; simp_all [stepBrk]
+
+/-- Under a forced break, in a group that is not itself indented, `upgrade` does not change the output. -/
+theorem loop_upgrade (o : Opt) (tl : Bool) : ∀ (is : Items) (st st' : St), Rel st st' →
+    (loopItems o tl true false (upgrade is) st').map (·.out)
+      = (loopItems o tl true false is st).map (·.out)
+  | .nil, st, st', h => by
+      simp [upgrade, loopItems, (rel_fields st st' h).2.2.2.2.2]
+  | .cons (.brk b) rest, st, st', h => by
+      by_cases hb : b = .maybeIndent
+      · subst hb
+        simp only [upgrade, loopItems]
+        exact loop_upgrade o tl rest _ _ (rel_maybeIndent o st st' h)
+      · have e : upgrade (.cons (.brk b) rest) = .cons (.brk b) (upgrade rest) := by
+          cases b <;> first | rfl | (exact absurd rfl hb)
+        rw [e]
+        simp only [loopItems, rel_stepBrk o b st st' h hb]
+        exact loop_upgrade o tl rest _ _ (Or.inl rfl)
+  | .cons .lineBreak rest, st, st', h => by
+      simp only [upgrade, loopItems]
+      rcases h with h | ⟨_, h⟩ <;> subst h <;> exact loop_upgrade o tl rest _ _ (Or.inl rfl)
+  | .cons (.char w) rest, st, st', h => by
+      simp only [upgrade, loopItems, isIndentedBlock, Bool.false_eq_true, if_false,
+        rel_preAdjust o tl st st' h]
+      cases renderItem o (.char w) (preAdjust o tl true false st).2 (tl || (preAdjust o tl true false st).2)
+          (preAdjust o tl true false st).1 with
+      | none => rfl
+      | some t =>
+        simp only [rel_stepItem o tl st st' _ _ t h]
+        exact loop_upgrade o tl rest _ _ (Or.inl rfl)
+  | .cons (.optChar w) rest, st, st', h => by
+      simp only [upgrade, loopItems, isIndentedBlock, Bool.false_eq_true, if_false,
+        rel_preAdjust o tl st st' h]
+      cases renderItem o (.optChar w) (preAdjust o tl true false st).2 (tl || (preAdjust o tl true false st).2)
+          (preAdjust o tl true false st).1 with
+      | none => rfl
+      | some t =>
+        simp only [rel_stepItem o tl st st' _ _ t h]
+        exact loop_upgrade o tl rest _ _ (Or.inl rfl)
+  | .cons (.str w m) rest, st, st', h => by
+      simp only [upgrade, loopItems, isIndentedBlock, Bool.false_eq_true, if_false,
+        rel_preAdjust o tl st st' h]
+      cases renderItem o (.str w m) (preAdjust o tl true false st).2 (tl || (preAdjust o tl true false st).2)
+          (preAdjust o tl true false st).1 with
+      | none => rfl
+      | some t =>
+        simp only [rel_stepItem o tl st st' _ _ t h]
+        exact loop_upgrade o tl rest _ _ (Or.inl rfl)
+  | .cons .error rest, st, st', h => by
+      simp [upgrade, loopItems, isIndentedBlock, renderItem]
+  | .cons (.group js) rest, st, st', h => by
+      simp only [upgrade, loopItems]
+      by_cases hb : isIndentedBlock (.group js) = true
+      · simp only [hb, if_true]
+        simp only [rel_block st st' h]
+        rw [(rel_fields st st' h).1]
+        cases renderItem o (.group js) false false st.column with
+        | none => rfl
+        | some t => exact loop_upgrade o tl rest _ _ (Or.inl rfl)
+      · simp only [hb, if_false, rel_preAdjust o tl st st' h]
+        cases renderItem o (.group js) (preAdjust o tl true false st).2
+            (tl || (preAdjust o tl true false st).2) (preAdjust o tl true false st).1 with
+        | none => rfl
+        | some t =>
+          simp only [rel_stepItem o tl st st' _ _ t h]
+          exact loop_upgrade o tl rest _ _ (Or.inl rfl)
+
+theorem upgrade_noop : ∀ (is : Items), anyItem forceBreak (upgrade is) = false → upgrade is = is
+  | .nil, _ => rfl
+  | .cons (.brk b) rest, h => by
+      cases b <;>
+        first
+        | (simp [upgrade, anyItem, forceBreak, Brk.forces] at h; done)
+        | (simp only [upgrade, anyItem, Bool.or_eq_false_iff] at h
+           simp only [upgrade, upgrade_noop rest h.2])
+  | .cons (.char w) rest, h => by
+      simp only [upgrade, anyItem, Bool.or_eq_false_iff] at h
+      simp only [upgrade, upgrade_noop rest h.2]
+  | .cons (.optChar w) rest, h => by
+      simp only [upgrade, anyItem, Bool.or_eq_false_iff] at h
+      simp only [upgrade, upgrade_noop rest h.2]
+  | .cons (.str w m) rest, h => by
+      simp only [upgrade, anyItem, Bool.or_eq_false_iff] at h
+      simp only [upgrade, upgrade_noop rest h.2]
+  | .cons .lineBreak rest, h => by simp [upgrade, anyItem, forceBreak] at h
+  | .cons .error rest, h => by
+      simp only [upgrade, anyItem, Bool.or_eq_false_iff] at h
+      simp only [upgrade, upgrade_noop rest h.2]
+  | .cons (.group js) rest, h => by
+      simp only [upgrade, anyItem, Bool.or_eq_false_iff] at h
+      simp only [upgrade, upgrade_noop rest h.2]
+
+/-- The group-level statement: a group (not itself indented) that is broken only because it is too
+long, without `SpaceOrIndent`/`SpaceOrReturn`/`OptionalChar` direct items, renders to the same text
+when its `MaybeIndent` breaks are upgraded to `IndentedBreak`. -/
+theorem render_upgrade (o : Opt) (is : Items) (ro : Bool) (col : Nat) (hok : okItems is = true)
+    (htl : tooLong o.lineLen col is = true) (hf : anyItem forceBreak is = false) :
+    renderItem o (.group (upgrade is)) false ro col = renderItem o (.group is) false ro col := by
+  by_cases hf' : anyItem forceBreak (upgrade is) = false
+  · rw [upgrade_noop is hf']
+  · have hf'' : anyItem forceBreak (upgrade is) = true := by simpa using hf'
+    simp only [renderItem, htl, hf, hf'', Bool.true_or, Bool.or_true, if_true]
+    rw [tooLong_as_force o (tooLong o.lineLen col (upgrade is)) is _ hok (by simp [okBrk])]
+    exact loop_upgrade o _ is _ _ (Or.inl rfl)
+
 end KotoVerif.C11.LayoutLemmas
